@@ -297,10 +297,10 @@ func genCase(t *rapid.T) Case {
 		c.StableUS = rapid.SampledFrom([]int{0, 0, 100, 30000000}).Draw(t, "stable_us")
 		c.Loops = rapid.IntRange(1, 6).Draw(t, "loops")
 		n := rapid.IntRange(2, 6).Draw(t, "n")
-		// Most programs keep Start/Stop in one goroutine (outside the region of KF-C18-04) and leave evaluation to the
-		// background goroutine (outside KF-C18-03); a fixed share goes inside each region.
-		multiLife := rapid.IntRange(0, 6).Draw(t, "multi_lifecycle") == 0
-		userEval := rapid.IntRange(0, 9).Draw(t, "user_eval") < 4
+		// KF-C18-03 and KF-C18-04 are repaired in /repo (fix: commits), so user-side Evaluate and a lifecycle
+		// driven from several goroutines get a full share of the programs.
+		multiLife := rapid.IntRange(0, 1).Draw(t, "multi_lifecycle") == 0
+		userEval := rapid.IntRange(0, 9).Draw(t, "user_eval") < 6
 		for i := 0; i < n; i++ {
 			th := Thread{Role: "user"}
 			no := rapid.IntRange(4, 30).Draw(t, "nops")
